@@ -819,10 +819,12 @@ Definition count_exc (it : arr T * Z) : option exn :=
 
 Section Thm7.
 Variables (z x zgrad xgrad zend xend : arr T) (zsrc xsrc stepsize : T) (max_step : Z) (hg : bool).
-Notation core_i fuel := (fun i : Z => u_ray2d_core_v fuel z x zgrad xgrad (get (nofZ 0) zend [i])
+Notation core_at fuel i := (u_ray2d_core_v fuel z x zgrad xgrad (get (nofZ 0) zend [i])
                                      (get (nofZ 0) xend [i]) zsrc xsrc stepsize max_step hg).
-Notation single_i fuel := (fun i : Z => u_ray2d_v fuel z x zgrad xgrad (get (nofZ 0) zend [i])
+Notation single_at fuel i := (u_ray2d_v fuel z x zgrad xgrad (get (nofZ 0) zend [i])
                                      (get (nofZ 0) xend [i]) zsrc xsrc stepsize max_step hg).
+Notation core_i fuel := (fun i : Z => core_at fuel i).
+Notation single_i fuel := (fun i : Z => single_at fuel i).
 Notation items := (pyrange 0 (dim zend 0%nat) 1).
 
 Theorem ray2d_vectorized_spec fuel :
@@ -841,64 +843,67 @@ Proof.
 Qed.
 
 Lemma single_of_core fuel i rc :
-  core_i fuel i = Ok rc ->
-  single_i fuel i = match count_exc rc with Some e => Raise e | None => Ok rc end.
+  core_at fuel i = Ok rc ->
+  single_at fuel i = match count_exc rc with Some e => Raise e | None => Ok rc end.
 Proof.
-  intros Ec. unfold u_ray2d_v. cbv beta in Ec. rewrite Ec. simpl. unfold count_exc.
+  intros Ec. unfold u_ray2d_v. rewrite Ec. simpl. unfold count_exc.
   destruct rc as [ray count]. simpl. destruct (count =? -1); [reflexivity|].
   destruct (count =? -2); reflexivity.
 Qed.
 
+Lemma mapM_oof_witness {X Y} (f : X -> res Y) : forall l,
+  mapM f l = OutOfFuel -> exists a, In a l /\ f a = OutOfFuel.
+Proof.
+  induction l as [|a t IH]; simpl; intros Hm; [discriminate|].
+  destruct (f a) eqn:Ea; simpl in Hm; try discriminate.
+  - destruct (mapM f t) eqn:Et; simpl in Hm; try discriminate.
+    destruct (IH eq_refl) as (b & Hb & Eb). exists b. split; [right|]; auto.
+  - exists a. split; [left|]; auto.
+Qed.
+
 (* modulo OutOfFuel the list call is the sequential map of the single call *)
 Theorem ray2d_vectorized_as_singles fuel :
-  (forall i, In i items -> core_i fuel i <> OutOfFuel) ->
+  (forall i, In i items -> core_at fuel i <> OutOfFuel) ->
   u_ray2d_vectorized_v fuel z x zgrad xgrad zend xend zsrc xsrc stepsize max_step hg =
   mapM (single_i fuel) items.
 Proof.
   rewrite ray2d_vectorized_spec. generalize items. intros l Hn.
   induction l as [|i t IH]; [reflexivity|].
-  assert (Hn' : forall j, In j t -> core_i fuel j <> OutOfFuel) by (intros; apply Hn; right; auto).
+  assert (Hn' : forall j, In j t -> core_at fuel j <> OutOfFuel) by (intros; apply Hn; right; auto).
   specialize (IH Hn'). cbn [mapM].
-  destruct (core_i fuel i) as [rc|e|] eqn:Ec.
+  destruct (core_at fuel i) as [rc|e|] eqn:Ec.
   - rewrite (single_of_core fuel i rc Ec). cbn [rbind]. rewrite <- IH.
     destruct (mapM (core_i fuel) t) as [bs|e|] eqn:Et; cbn [rbind first_exc].
     + destruct (count_exc rc); cbn [rbind]; [reflexivity|].
       destruct (first_exc count_exc bs); reflexivity.
     + exfalso. apply (mapM_raise_iff (core_i fuel) t e Hn') in Et.
-      destruct Et as (l1 & a & l2 & _ & _ & Ha). cbv beta in Ha.
+      destruct Et as (l1 & a & l2 & _ & _ & Ha).
       exact (ray2d_core_no_raise _ _ _ _ _ _ _ _ _ _ _ _ _ Ha).
-    + destruct (count_exc rc); cbn [rbind]; [|reflexivity].
-      (* an exhausted later item: excluded by the hypothesis *)
-      exfalso. clear - Et Hn'. revert Et Hn'. generalize (core_i fuel). intros f Et Hn'.
-      induction t as [|a t IHt]; simpl in Et; [discriminate|].
-      destruct (f a) eqn:Ea; simpl in Et; try discriminate.
-      * destruct (mapM f t) eqn:Et'; simpl in Et; try discriminate. apply IHt; auto.
-        intros; apply Hn'; right; auto.
-      * exact (Hn' a (or_introl eq_refl) Ea).
-  - exfalso. cbv beta in Ec. exact (ray2d_core_no_raise _ _ _ _ _ _ _ _ _ _ _ _ _ Ec).
+    + exfalso. destruct (mapM_oof_witness _ _ Et) as (a & Ha & Ea). exact (Hn' a Ha Ea).
+  - exfalso. exact (ray2d_core_no_raise _ _ _ _ _ _ _ _ _ _ _ _ _ Ec).
   - exfalso. exact (Hn i (or_introl eq_refl) Ec).
 Qed.
 
-Lemma single_not_oof fuel i : core_i fuel i <> OutOfFuel -> single_i fuel i <> OutOfFuel.
+Lemma single_not_oof fuel i : core_at fuel i <> OutOfFuel -> single_at fuel i <> OutOfFuel.
 Proof.
-  intros Hc. unfold u_ray2d_v. cbv beta in Hc.
-  destruct (u_ray2d_core_v _ _ _ _ _ _ _ _ _ _ _ _) as [[ray count]| |]; simpl; try discriminate; try congruence.
+  intros Hc. unfold u_ray2d_v.
+  destruct (core_at fuel i) as [[ray count]| |]; simpl; try discriminate; try congruence.
   destruct (count =? -1); [discriminate|]. destruct (count =? -2); discriminate.
 Qed.
 
 Theorem ray2d_list_raises_like_first_failing_single fuel :
-  (forall i, In i items -> core_i fuel i <> OutOfFuel) ->
+  (forall i, In i items -> core_at fuel i <> OutOfFuel) ->
   (forall e,
      u_ray2d_vectorized_v fuel z x zgrad xgrad zend xend zsrc xsrc stepsize max_step hg = Raise e <->
      exists l1 i l2, items = l1 ++ i :: l2 /\
-       (forall j, In j l1 -> exists rc, single_i fuel j = Ok rc) /\ single_i fuel i = Raise e) /\
+       (forall j, In j l1 -> exists rc, single_at fuel j = Ok rc) /\ single_at fuel i = Raise e) /\
   (forall l,
      u_ray2d_vectorized_v fuel z x zgrad xgrad zend xend zsrc xsrc stepsize max_step hg = Ok l <->
-     Forall2 (fun i rc => single_i fuel i = Ok rc) items l).
+     Forall2 (fun i rc => single_at fuel i = Ok rc) items l).
 Proof.
   intros Hn. rewrite (ray2d_vectorized_as_singles fuel Hn). split.
-  - intros e. apply mapM_raise_iff. intros i Hi. apply single_not_oof. apply Hn. exact Hi.
-  - intros l. apply mapM_ok_iff.
+  - intros e. apply (mapM_raise_iff (single_i fuel)). intros i Hi. apply single_not_oof. apply Hn. exact Hi.
+  - intros l. apply (mapM_ok_iff (single_i fuel)).
 Qed.
 End Thm7.
 End Core2.
